@@ -1,7 +1,9 @@
 (* C01 - Every emitted event is exactly one well-formed JSON object on one line.
    Statements only; proofs are [exact] from Proofs/ExecP.v and Proofs/JsonEncP.v. *)
 From Verif Require Import Base.Prelude Base.Decimal Base.Utf8 Base.JsonSpec Enc.JsonEnc Misc.Level
-     Proofs.JsonEncP Api.Exec Api.Spec Proofs.ExecP Proofs.FuelP.
+     Proofs.JsonEncP Api.Exec Api.Spec Proofs.ExecP Proofs.FuelP
+     Base.GoSem Proofs.SrcJsonP.
+From Verif Require Gen.JsonSrc.
 Open Scope N_scope.
 
 (* For ALL settings, ALL logger derivation chains (With / UpdateContext with any
@@ -53,6 +55,31 @@ Proof. exact exec_list_is_exec. Qed.
 Theorem C01_premises_fuel_irrelevant : forall st l, ops_ok st l <-> Forall (op_ok st) l.
 Proof. exact ops_ok_is_op_ok. Qed.
 
+(* ---- about the SOURCE.  Gen/JsonSrc.v is the translation, regenerated on every run by harness/cmd/srcgen,
+   of the function bodies of /repo/internal/json (loops, indices, switch, the noEscapeTable built by init()).
+   [bytes_ok s]: every element is a byte; [len_ok s]: len s < 2^62 (so that Go's int index arithmetic, which
+   the translation wraps at 64 bits, cannot overflow - true of every slice that fits in memory). ---- *)
+
+(* the code of AppendString and of AppendBytes, as it stands in the working tree, returns (never panics, never
+   loops) dst followed by a JSON string denoting Go's reading of the bytes, valid UTF-8, no control byte *)
+Theorem C01_source_string_escaper : forall dst s, bytes_ok s -> len_ok s ->
+  exists t, JsonSrc.AppendString dst s = Ok (dst ++ t) /\ JsonSrc.AppendBytes dst s = Ok (dst ++ t) /\
+            JString t (go_runes s) /\ GoodTxt t.
+Proof. exact source_string_escaper. Qed.
+
+(* the code of AppendKey: comma unless the last byte is an opening brace, the escaped key, a colon; it indexes
+   dst[len(dst)-1] and therefore panics on an empty dst - zerolog never calls it so (Event.buf and
+   Logger.context start with the begin marker) and the premise says so *)
+Theorem C01_source_AppendKey : forall dst key, dst <> [] -> len_ok dst -> bytes_ok key -> len_ok key ->
+  JsonSrc.AppendKey dst key = Ok (dst ++ (if last_byte dst =? 0x7B then [] else [0x2C]) ++ json_string key ++ [0x3A]).
+Proof. exact source_AppendKey. Qed.
+
+(* all 37 translated functions of internal/json (strings, keys, hex, object splice, markers, booleans, every
+   integer width and its slice form, times in the five formats) return exactly what the hand-written model
+   computes - so every theorem about the model's primitives is a theorem about this code *)
+Theorem C01_source_refines_model : json_source_refinement.
+Proof. exact json_source_refines_model. Qed.
+
 (* non-vacuity: a nested program with context, hook, Dict, Array, Fields, errors meets the premises *)
 Definition ex_settings : settings :=
   {| s_level_name := [108]; s_message_name := [109]; s_error_name := [101]; s_stack_name := [115];
@@ -90,3 +117,6 @@ Print Assumptions C01_value_never_ends_in_brace.
 Print Assumptions C01_exec_fuel_irrelevant.
 Print Assumptions C01_exec_list_is_exec.
 Print Assumptions C01_premises_fuel_irrelevant.
+Print Assumptions C01_source_string_escaper.
+Print Assumptions C01_source_AppendKey.
+Print Assumptions C01_source_refines_model.
